@@ -2,6 +2,7 @@
 import numpy as np
 from vlib import gen, dense as D
 from vlib.run import corr, do, impl, opt
+from vlib import impl_np as NP
 
 RULE = ('(generator, operand list, optional mask): exhaustive over all Hermitian generators x all operands x all masks for N<=2, random '
         'N<=6 with masks of every size; sequences of rotations; rotation maps; states; both backends. Non-trivial = the generator '
@@ -22,13 +23,25 @@ def lift(genp, mask, N):
 
 
 def c_rot_corr(ctx, args):
-    be, g, mask, l = args
-    return corr(ctx, be, 'rotate', [g, opt(mask), l], [g, mask, l])
+    be, g, mask, l = args[:4]
+    NP.set_layout(args[4] if len(args) > 4 else 'c')
+    try:
+        return corr(ctx, be, 'rotate', [g, opt(mask), l], [g, mask, l])
+    finally:
+        NP.set_layout('c')
 
 
 def c_rot_dense(ctx, args):
-    be, g, mask, l = args
+    be, g, mask, l = args[:4]
     N = len(l[0][0]) // 2
+    NP.set_layout(args[4] if len(args) > 4 else 'c')
+    try:
+        return _rot_dense(ctx, be, g, mask, l, N)
+    finally:
+        NP.set_layout('c')
+
+
+def _rot_dense(ctx, be, g, mask, l, N):
     got = impl(be).OPS['rotate'](g, mask, l)
     G = lift(g, mask, N)
     U = D.rot_unitary(*G)
@@ -107,9 +120,11 @@ def run(ctx):
         g = gen.rpauli(rng, n, herm=True)
         l = gen.rplist(rng, N, rng.randint(1, 5))
         be = rng.choice(backends)
-        do(ctx, 'rot_corr', [be, g, mask, l], nontrivial=(be, str(g), str(mask), str(l)), sample=True)
+        lay = rng.choice(['c', 'c', 'strided', 'fortran', 'colslice']) if be == 'np' else 'c'
+        do(ctx, 'rot_corr', [be, g, mask, l, lay], nontrivial=(be, str(g), str(mask), str(l)), sample=True)
         if N <= 4:
-            do(ctx, 'rot_dense', [be, g, mask, l])
+            do(ctx, 'rot_dense', [be, g, mask, l, lay])
+        ctx.res.count('layout_' + lay)
         ctx.res.count('N%d_masked%d' % (N, mask is not None))
     for _ in range(int(120 * B)):
         N = rng.randint(1, 5)
